@@ -507,23 +507,29 @@ theorem put_spec (cfg : Cfg) {a : AS} (inv : PInv cfg a) (r j : Nat) : Stable cf
   · exact Stable.of_same inv rfl rfl rfl rfl
   · exact Stable.refl inv
   · rename_i nid hr
-    by_cases hl : putLegal a.hs nid j = false
-    · rw [if_pos hl]
-      exact Stable.of_same inv rfl rfl rfl rfl
-    · rw [if_neg hl]
-      simp only
-      have hj' : ∀ nid', a.hs.reqs[r]? = some (nid', false) → a.hs.putDraws nid' = true → 1 ≤ j ∧ j ≤ a.hs.size := by
-        intro nid' h1 h2
-        rw [hr] at h1
-        injection h1 with h1; injection h1 with h1 _; subst h1
-        unfold putLegal at hl
-        simpa [h2] using hl
-      have st1 : Stable cfg a { a with hs := a.hs.put r j } :=
-        Stable.of_hframe inv (put_HFrame inv.wf r j hj') rfl rfl rfl
-      split
-      · rename_i hap
-        exact st1.trans (adjust_spec cfg st1.inv hap (-1))
-      · exact st1
+    simp only
+    have hj' : ∀ nid', a.hs.reqs[r]? = some (nid', false) → a.hs.putDraws nid' = true →
+        1 ≤ putDraw a.hs nid j ∧ putDraw a.hs nid j ≤ a.hs.size := by
+      intro nid' h1 h2
+      rw [hr] at h1
+      injection h1 with h1; injection h1 with h1 _; subst h1
+      unfold putDraw
+      by_cases hl : putLegal a.hs nid j = true
+      · rw [if_pos hl]; unfold putLegal at hl; simpa [h2] using hl
+      · rw [if_neg hl, if_pos h2]
+        unfold HS.putDraws at h2
+        simp only [Bool.and_eq_true, decide_eq_true_eq] at h2
+        omega
+    have st1 : Stable cfg a { (if putLegal a.hs nid j = true then a else { a with bad := true }) with
+        hs := a.hs.put r (putDraw a.hs nid j) } := by
+      apply Stable.of_hframe inv (put_HFrame inv.wf r _ hj')
+      · split <;> rfl
+      · split <;> rfl
+      · split <;> rfl
+    split
+    · rename_i hap
+      exact st1.trans (adjust_spec cfg st1.inv hap (-1))
+    · exact st1
 
 theorem setChan_spec (cfg : Cfg) {a : AS} (inv : PInv cfg a) (nid st : Nat) : Stable cfg a (a.setChan nid st) := by
   unfold AS.setChan
